@@ -22,7 +22,10 @@ RULE = (
     "sequential+post-routine (also post routines with classical temporaries of their own), recv_rsp, recv_rsp_with_info, create_keep} x {generic, NV hardware} x 0..2 other live qubits "
     "created first (prepared |1>, |+>) x expect_phi_plus {on, off}; measure-directly: 4 Bell states x 6 named bases x both "
     "outcomes, via result objects with explicit bases and via recv_measure(); quick adds a Hypothesis sample of 4-pair "
-    "tuples.  Non-trivial = >=1 delivered pair not Phi+; distinct by (tuple, variant, hardware, others, expectation)"
+    "tuples.  Hardware also described by instances of subclasses of NVHardwareConfig / GenericHardwareConfig.  recv_measure() as a later "
+    "operation on its socket: after one earlier operation of every kind (recv_keep, recv_keep with a post routine, sequential or not, "
+    "recv_rsp, recv_measure, create_keep; own or same subroutine) and after Hypothesis-generated histories of up to 4 operations; "
+    "keep requests after an earlier recv_measure.  Non-trivial = >=1 delivered pair not Phi+; distinct by (tuple, variant, hardware, others, expectation)"
 )
 ASSUMPTIONS = [
     "Bell numbering of qlink_compat.BellState; remote partners are modelled inside the harness state vector and never touched",
@@ -48,7 +51,21 @@ def run_keep(case) -> None:
     expect = case["expect"]
     from netqasm.sdk.build_types import HardwareConfig
 
-    hw = {"nv": lambda: NVHardwareConfig(5), "nv2": lambda: NVHardwareConfig(2), "nv3": lambda: NVHardwareConfig(3), "generic2": lambda: GenericHardwareConfig(2),
+    class LabNVConfig(NVHardwareConfig):
+        """NV hardware described by a subclass of the documented class (extra bookkeeping only)"""
+
+        def __init__(self, num_qubits, name="lab-1"):
+            super().__init__(num_qubits)
+            self.name = name
+
+    class LabGenericConfig(GenericHardwareConfig):
+        """generic hardware described by a subclass of the documented class"""
+
+        def __init__(self, num_qubits, name="lab-2"):
+            super().__init__(num_qubits)
+            self.name = name
+
+    hw = {"nv-sub": lambda: LabNVConfig(5), "generic-sub": lambda: LabGenericConfig(5), "nv": lambda: NVHardwareConfig(5), "nv2": lambda: NVHardwareConfig(2), "nv3": lambda: NVHardwareConfig(3), "generic2": lambda: GenericHardwareConfig(2),
           "generic": lambda: GenericHardwareConfig(5), "generic1": lambda: GenericHardwareConfig(1),
           "custom1": lambda: HardwareConfig(1, 4)}[case["hardware"]]()
     sock = EPRSocket("bob")
@@ -76,16 +93,25 @@ def run_keep(case) -> None:
             q.H()
         others.append(q)
     prelude = case.get("prelude")
+    # (signature suffix for the histories in which the earlier request on the socket was a measure request)
+    hist = ":after-" + prelude[0] if prelude and prelude[0] == "recv_measure" else ""
     if prelude:
         kind = prelude[0]
         if kind in ("recv_rsp", "recv_keep", "create_keep"):
             pq = getattr(sock, kind)(number=1)
             stack.expect("create" if kind == "create_keep" else "recv", "K", 1, [{"bell_state": prelude[1]}])
             pq[0].measure()
+        elif kind == "recv_measure":
+            # an earlier measure-directly request on the same socket (no qubit, no handle left behind)
+            sock.recv_measure(number=1)
+            stack.expect("recv", "M", 1, [{"bell_state": prelude[1], "measurement_outcome": 1}])
         elif kind == "new_register":
             conn.builder.new_register(3)
         if len(prelude) > 2 and prelude[2]:
-            conn.flush()
+            try:
+                conn.flush()
+            except Exception as e:
+                raise Failure(f"prelude-flush-raises:{kind}", case, f"flush of the earlier request ({kind}) raised {type(e).__name__}: {str(e).splitlines()[0][:200]}")
         n_prelude_pairs = len(stack.pair_log) + (1 if kind in ("recv_rsp", "recv_keep", "create_keep") and not (len(prelude) > 2 and prelude[2]) else 0)
     else:
         n_prelude_pairs = 0
@@ -137,9 +163,9 @@ def run_keep(case) -> None:
     try:
         conn.flush()
     except sim.WouldBlock:
-        raise Failure(f"blocks:{variant}:{case['hardware']}", case, f"{variant} with {n} pairs on {case['hardware']} hardware waits forever: a delivered pair can never be mapped to its virtual qubit")
+        raise Failure(f"blocks:{variant}:{case['hardware']}{hist}", case, f"{variant} with {n} pairs on {case['hardware']} hardware waits forever: a delivered pair can never be mapped to its virtual qubit")
     except Exception as e:
-        raise Failure(f"flush-raises:{variant}:{case['hardware']}", case, f"flush raised {type(e).__name__}: {str(e).splitlines()[0][:200]}")
+        raise Failure(f"flush-raises:{variant}:{case['hardware']}{hist}", case, f"flush raised {type(e).__name__}: {str(e).splitlines()[0][:200]}")
     app = conn.app_id
     um = ex._qubit_unit_modules[app]
     sv = ex.sv
@@ -155,14 +181,14 @@ def run_keep(case) -> None:
             q = qubits[i]
             phys = um[q.qubit_id] if q.qubit_id < len(um) else None
             if phys is None:
-                raise Failure(f"qubit-missing:{variant}:{case['hardware']}", case, f"handle of pair {i} has virtual id {q.qubit_id}, which is not allocated on the controller")
+                raise Failure(f"qubit-missing:{variant}:{case['hardware']}{hist}", case, f"handle of pair {i} has virtual id {q.qubit_id}, which is not allocated on the controller")
             partner = stack.pair_log[i + n_prelude_pairs]["partner"]
             rho = sv.reduced([phys, partner])
             f = qm.fidelity_pure(rho, target_vec)
         if abs(f - 1) > 1e-7:
             what = "Phi+" if want_phi else f"the delivered Bell state {b} (nothing should be corrected)"
             raise Failure(
-                f"fidelity:{variant}:{case['hardware']}:{'multi' if n > 1 else 'single'}:{'others' if case['others'] else 'alone'}" + (":qlink10" if case.get("wire") == "qlink10" else ""),
+                f"fidelity:{variant}:{case['hardware']}:{'multi' if n > 1 else 'single'}:{'others' if case['others'] else 'alone'}" + (":qlink10" if case.get("wire") == "qlink10" else "") + hist,
                 case,
                 f"pair {i} (delivered Bell state {b}) has fidelity {f:.3f} with {what} after the subroutine",
             )
@@ -295,6 +321,65 @@ def run_measure_multi(case) -> None:
             raise Failure(f"measure:multi-pair:{case['route']}", case, f"pair {i} of {n} (Bell state {bells[i]}, basis {case['basis']}, raw outcome {raws[i]}) is post-processed to {got}; Phi+ statistics require {want}")
 
 
+HISTORY_OPS = ["recv_keep", "recv_keep_post", "recv_keep_seq", "recv_rsp", "recv_measure", "create_keep"]
+
+
+def run_measure_history(case) -> None:
+    """a measure-directly request that is not the first operation on its socket: whatever was requested before on the same
+    socket and connection (kept pairs handled by a post routine, sequentially or not; rsp; measure; create), pair i of the
+    request under test is post-processed with pair i's Bell state and the call's own expectation flag"""
+    from netqasm.sdk.build_epr import EprMeasBasis, basis_to_rotation
+    from netqasm.sdk.epr_socket import EPRSocket
+    from vlib import net, sim
+
+    rot = basis_to_rotation(EprMeasBasis[case["basis"]])
+    bells, raws, expect = case["bells"], case["raws"], case["expect"]
+    n = len(bells)
+    sock = EPRSocket("bob")
+    ctrl, conn = sim.fresh(sim.TraceExecutor, network_stack_cls=net.ScriptedNetworkStack, epr_sockets=[sock], max_qubits=5)
+    stack = ctrl.network_stack
+    names = "+".join(op[0] for op in case["history"]) or "none"
+    earlier = []  # (result handles, raw outcome, Bell state) of earlier measure requests: they must stay right as well
+    for kind, hb, m, flush in case["history"]:
+        if kind in ("recv_keep_post", "recv_keep_seq"):
+            sock.recv_keep(number=m, sequential=kind == "recv_keep_seq", post_routine=lambda c, q, pair: q.measure())
+            stack.expect("recv", "K", m, [{"bell_state": (hb + j) % 4} for j in range(m)])
+        elif kind == "recv_measure":
+            res = sock.recv_measure(number=m)
+            stack.expect("recv", "M", m, [{"bell_state": (hb + j) % 4, "measurement_outcome": 1} for j in range(m)])
+            earlier.append((res, [(hb + j) % 4 for j in range(m)]))
+        else:
+            qs = getattr(sock, kind)(number=1)
+            stack.expect("create" if kind == "create_keep" else "recv", "K", 1, [{"bell_state": hb}])
+            qs[0].measure()
+        if flush:
+            try:
+                conn.flush()
+            except Exception as e:
+                raise Failure(f"measure:history-flush-raises:{kind}", case, f"flush of the earlier {kind} raised {type(e).__name__}: {str(e).splitlines()[0][:160]}")
+    results = sock.recv_measure(number=n, expect_phi_plus=expect) if not (expect and case.get("expect_by_default")) else sock.recv_measure(number=n)
+    stack.expect("recv", "M", n, [{"bell_state": b, "measurement_outcome": r} for b, r in zip(bells, raws)])
+    try:
+        conn.flush()
+    except Exception as e:
+        raise Failure("measure:after-history:flush-raises", case, f"after {names} on the same socket, flush of recv_measure({n}) raised {type(e).__name__}: {str(e).splitlines()[0][:160]}")
+    pending = f" ({len(stack.plan)} of the announced pairs were never waited for: the results are handed back before they exist)" if stack.plan else ""
+    for i in range(n):
+        want = raws[i] ^ (expected_flip(bells[i], rot) if expect else 0)
+        try:
+            got = results[i].measurement_outcome
+        except Exception as e:
+            raise Failure("measure:after-history:outcome-raises", case, f"after {names} on the same socket, measurement_outcome of pair {i} raised {type(e).__name__}: {str(e)[:160]}{pending}")
+        if got != want:
+            raise Failure("measure:after-history:outcome", case, f"after {names} on the same socket, pair {i} of {n} (Bell state {bells[i]}, basis {case['basis']}, raw outcome {raws[i]}, expect_phi_plus={expect}) is post-processed to {got!r}; required {want}{pending}")
+    for res, hbells in earlier:
+        for j, hb in enumerate(hbells):
+            want = 1 ^ expected_flip(hb, rot)
+            got = res[j].measurement_outcome
+            if got != want:
+                raise Failure("measure:after-history:earlier-request-changed", case, f"pair {j} of an earlier recv_measure (Bell state {hb}, raw outcome 1) reads {got!r} after the later requests; required {want}")
+
+
 def run_measure_creator(case) -> None:
     """the creating node never post-processes: its outcome handle reads the raw link-layer outcome (the receiver flips)"""
     from netqasm.sdk.build_epr import EprMeasBasis
@@ -320,6 +405,8 @@ def check(case) -> None:
         run_keep(case)
     elif case["kind"] == "measure_multi":
         run_measure_multi(case)
+    elif case["kind"] == "measure_history":
+        run_measure_history(case)
     else:
         run_measure(case)
 
@@ -396,6 +483,27 @@ def keep_cases(max_pairs: int, ctx_open) -> List[Dict[str, Any]]:
             for variant in ("recv_keep", "recv_keep_seq", "recv_rsp"):
                 cases.append({"kind": "keep", "bells": list(bells), "variant": variant, "hardware": "nv", "others": 0, "expect": True, "prelude": prelude})
             cases.append({"kind": "keep", "bells": [bells[0]], "variant": "recv_keep", "hardware": "generic", "others": 0, "expect": True, "prelude": prelude})
+    # hardware described by an instance of a subclass of the documented configuration classes
+    for hardware in ("nv-sub", "generic-sub"):
+        for n in range(1, min(max_pairs, 3) + 1):
+            for bells in itertools.product(range(4), repeat=n):
+                if n == 3 and (bells[0] + 2 * bells[1] + 3 * bells[2]) % 4 != 1:
+                    continue  # (a quarter of the 3-pair tuples)
+                for variant in VARIANTS:
+                    for others in (0, 1):
+                        for expect in (True, False):
+                            if (variant == "create_keep" and not expect) or (others and n == 3):
+                                continue
+                            cases.append({"kind": "keep", "bells": list(bells), "variant": variant, "hardware": hardware, "others": others, "expect": expect})
+    # the socket's previous request was a measure request (keep-type requests after a request with a post routine are left out: the
+    # handles that request returned stay registered as live qubits, which puts every later keep request into the region of the
+    # open findings about other live qubits; measure requests after a post routine are in measure_cases())
+    for prelude in (["recv_measure", 2, True], ["recv_measure", 3, False]):
+        for hardware in ("generic", "nv"):
+            for bells in ([1], [2], [3], [2, 3], [3, 1]):
+                for variant in ("recv_rsp", "recv_rsp_with_info", "recv_keep", "recv_keep_with_info"):
+                    for expect in (True, False):
+                        cases.append({"kind": "keep", "bells": list(bells), "variant": variant, "hardware": hardware, "others": 0, "expect": expect, "prelude": prelude})
     return cases
 
 
@@ -418,6 +526,16 @@ def measure_cases() -> List[Dict[str, Any]]:
         for bell in range(4):
             for raw in (0, 1):
                 out.append({"kind": "measure_creator", "basis": basis, "bell": bell, "raw": raw})
+    # recv_measure as a later operation on a socket: one earlier operation of every kind (flushed separately / same subroutine)
+    for k, op in enumerate(HISTORY_OPS):
+        for flush in (True, False):
+            for m in (1, 2):
+                if m == 2 and op not in ("recv_keep_seq", "recv_measure"):
+                    continue
+                for j, (bells, raws) in enumerate((([1, 2], [0, 1]), ([3, 0], [1, 1]), ([2], [0]), ([1, 3, 2], [1, 0, 0]))):
+                    for expect in (True, False):
+                        out.append({"kind": "measure_history", "route": "recv_measure", "basis": "Z" if (j + k) % 2 == 0 else "MZ", "history": [[op, (k + j) % 4, m, flush]],
+                                    "bells": bells, "raws": raws, "expect": expect})
     return out
 
 
@@ -429,7 +547,7 @@ def excluded(case, open_keys) -> str:
     """input-level predicates of the open known findings (never outputs or error texts)"""
     if case["kind"] == "measure_creator":
         return ""
-    if case["kind"] in ("measure", "measure_multi"):
+    if case["kind"] in ("measure", "measure_multi", "measure_history"):
         if case["route"] == "recv_measure" and case["basis"] not in ("Z", "MZ") and case["expect"] and KF_BASIS in open_keys:
             return KF_BASIS
         return ""
@@ -472,6 +590,8 @@ def shard(ctx: Ctx) -> None:
         n_enum += 1
         nt = any(b != 0 for b in case["bells"]) if "bells" in case else case["bell"] != 0
         labels = [case["kind"]] + ([case["variant"], case["hardware"], f"pairs:{len(case['bells'])}", f"others:{case['others']}", f"expect:{case['expect']}"] + (["prelude:" + case["prelude"][0]] if case.get("prelude") else []) + (["nv-by-compiler:" + case["hardware_given"]] if case.get("compiler") else []) + (["expectation-left-at-default"] if case.get("expect_by_default") else []) if case["kind"] == "keep" else [case.get("route", "creator"), case["basis"]])
+        if case["kind"] == "measure_history":
+            labels += ["history:" + op[0] + (":own-subroutine" if op[3] else ":same-subroutine") for op in case["history"]]
         stt.case(case, nt, labels, sample=case)
     stt.exhaustive_domains[f"keep scenarios up to {max_pairs} pairs x variants x hardware x others x expectation; measure-directly 4 Bell x 6 bases x 2 routes x expectation"] = n_enum
     if True:
@@ -479,7 +599,7 @@ def shard(ctx: Ctx) -> None:
 
         def body(t):
             bells, variant, hardware, others, expect, prelude = t
-            if len(bells) + others > (5 if hardware == "generic" else 4):
+            if len(bells) + others > (5 if hardware.startswith("generic") else 4):
                 others = 0
             case = {"kind": "keep", "bells": list(bells), "variant": variant, "hardware": hardware, "others": others, "expect": expect or variant == "create_keep"}
             if prelude is not None and others == 0:
@@ -495,12 +615,45 @@ def shard(ctx: Ctx) -> None:
                 return
             stt.case(case, any(b != 0 for b in bells), ["keep:hyp", variant, hardware, f"pairs:{len(bells)}"] + (["prelude:" + case["prelude"][0]] if "prelude" in case else []))
 
-        st_prelude = st.none() | st.tuples(st.sampled_from(["recv_rsp", "recv_keep", "create_keep", "new_register"]), st.integers(0, 3), st.booleans())
+        st_prelude = st.none() | st.tuples(st.sampled_from(["recv_rsp", "recv_keep", "create_keep", "new_register", "recv_measure"]), st.integers(0, 3), st.booleans())
         ctx.search(
-            st.tuples(st.lists(st.integers(0, 3), min_size=1, max_size=4), st.sampled_from(VARIANTS), st.sampled_from(["generic", "nv"]), st.integers(0, 2), st.booleans(), st_prelude),
+            st.tuples(st.lists(st.integers(0, 3), min_size=1, max_size=4), st.sampled_from(VARIANTS), st.sampled_from(["generic", "nv", "nv-sub", "generic-sub"]), st.integers(0, 2), st.booleans(), st_prelude),
             body,
             150 if ctx.tier == "quick" else 4000,
             name="c10-hyp",
+        )
+
+        # measure-directly requests at the end of a random history of operations on the same socket and connection
+        def body_hist(t):
+            (before, post_op, after), pairs, basis, expect, by_default = t
+            history = list(before) + ([post_op] if post_op is not None else []) + list(after)
+            case = {"kind": "measure_history", "route": "recv_measure", "basis": basis, "history": [list(op) for op in history],
+                    "bells": [b for b, _ in pairs], "raws": [r for _, r in pairs], "expect": expect}
+            if expect and by_default:
+                case["expect_by_default"] = True
+            exk = excluded(case, ctx.open_findings)
+            if exk:
+                stt.excluded[exk] += 1
+                return
+            check(case)
+            with_post = any(op[0] in ("recv_keep_post", "recv_keep_seq") for op in history)
+            stt.case(case, any(b != 0 for b, _ in pairs), ["measure:hyp-history", f"history-length:{len(history)}", f"pairs:{len(pairs)}", f"expect:{expect}"]
+                     + (["history-has-post-routine"] if with_post else []) + ["history:" + op[0] for op in history])
+
+        # shape of a history: operations without a post routine, then at most one keep request whose pairs a post routine consumes
+        # (one pair when not sequential), then only measure requests.  (Keep-type requests after a post routine, and two pairs
+        # corrected at once on the default hardware, fall into the open findings on corrections with other live qubits.)
+        st_plain = st.sampled_from(["recv_keep", "recv_rsp", "recv_measure", "create_keep"]).flatmap(
+            lambda k: st.tuples(st.just(k), st.integers(0, 3), st.integers(1, 2) if k == "recv_measure" else st.just(1), st.booleans()))
+        st_post = st.none() | st.tuples(st.just("recv_keep_post"), st.integers(0, 3), st.just(1), st.booleans()) | st.tuples(st.just("recv_keep_seq"), st.integers(0, 3), st.integers(1, 2), st.booleans())
+        st_after = st.lists(st.tuples(st.just("recv_measure"), st.integers(0, 3), st.integers(1, 2), st.booleans()), max_size=1)
+        ctx.search(
+            st.tuples(st.tuples(st.lists(st_plain, min_size=0, max_size=2), st_post, st_after), st.lists(st.tuples(st.integers(0, 3), st.integers(0, 1)), min_size=1, max_size=3),
+                      st.sampled_from(["Z", "MZ"]), st.booleans(), st.booleans()),
+            body_hist,
+            60 if ctx.tier == "quick" else 1500,
+            name="c10-hyp-history",
+            salt=1,
         )
 
 
